@@ -478,7 +478,7 @@ Print Assumptions C07_percent_line.
    One hypothesis is about the bytes: TrMot.nl_ok -- uc_code(lbuf_chr(..)) == '\n' in lbuf_wordbeg / lbuf_wordend
    decodes with the bytes BEHIND a truncated multi-byte character, the model decodes the character cut by uc_next
    alone; they agree (and uc_code stays inside the line's block) on every line without such a sequence, e.g. every
-   line without UTF-8 lead bytes (C07_tr_nl_ok_nolead); C07_tr_nl_needed shows a line ("a\xC0\n") on which the C text
+   line without UTF-8 lead bytes (C07_tr_nl_ok_nolead) and every line that is valid UTF-8 (C07_tr_nl_ok_valid); C07_tr_nl_needed shows a line ("a\xC0\n") on which the C text
    and the model differ. *)
 From Coq Require Import Lia.
 From NV Require CLite CLiteProps GenCFuncs TrLbufBase TrUc TrMot TrMotSpec.
@@ -625,6 +625,11 @@ Print Assumptions C07_tr_b_B_first_stop.
 Theorem C07_tr_nl_ok_nolead : forall s, no_lead s -> nl_ok s.
 Proof. exact nl_ok_nolead. Qed.
 Print Assumptions C07_tr_nl_ok_nolead.
+
+(* ... and for every line that is valid UTF-8: the encoding (RFC 3629, UcSpec.chars) of any list of scalar values *)
+Theorem C07_tr_nl_ok_valid : forall s, NV.UcSpec.valid s -> nl_ok s.
+Proof. exact nl_ok_valid. Qed.
+Print Assumptions C07_tr_nl_ok_valid.
 
 (* not vacuous, and the translated functions RUN: the two lines "ab cd\n" and " ef\n" behind the program's globals
    (struct lbuf in block G, the line array in G+1, the lines in G+2 and G+3, *row in G+4, *off in G+5).  The memory
